@@ -16,6 +16,7 @@ func init() {
 }
 
 var vZCancel = []byte("\x18\x18\x18\x18\x18\x18\x18\x18\x18\x18\x08\x08\x08\x08\x08\x08\x08\x08\x08\x08")
+var vGaveUpPrompt = []byte("[remote gave up] $ ")
 var vZFinish = []byte("**\x18B0800000000022d\r\x8a")
 
 // vHelper is the scripted lrzsz helper process behind the os/exec substitute.
@@ -91,7 +92,8 @@ func vScenarioC19(rc *runCtx) {
 
 	var helper *vHelper
 	helperStarts := 0
-	var helperStartAt, cancelAt time.Duration = -1, -1
+	var helperStartAt, cancelAt, cancelLateAt time.Duration = -1, -1, -1
+	promptShown, promptChecked, textOnly := false, false, false
 	w.Exec = func(req *verifsim.ExecRequest) (verifsim.ExecChild, error) {
 		if req.Name != "rz" && req.Name != "sz" {
 			return nil, fmt.Errorf("exec: %q: executable file not found in $PATH", req.Name)
@@ -206,6 +208,7 @@ func vScenarioC19(rc *runCtx) {
 			verifsim.Sleep(time.Duration(ms) * time.Millisecond)
 			cancelAt = w.Now()
 			if tp.Bool("c19.cannotopen", 300) {
+				textOnly = true
 				down.Write([]byte("rz: cannot open /dev/tty\r\n"))
 			} else {
 				down.Write(vZCancel)
@@ -213,6 +216,7 @@ func vScenarioC19(rc *runCtx) {
 		case "cancels-late":
 			verifsim.Sleep(time.Duration(150+tp.Draw("c19.latec", 600)) * time.Millisecond)
 			down.Write([]byte("zdata-1"))
+			cancelLateAt = w.Now()
 			down.Write(vZCancel)
 		case "finishes":
 			// a zmodem sender only sends file data once the other end has answered its header
@@ -234,6 +238,15 @@ func vScenarioC19(rc *runCtx) {
 				down.Write([]byte(fmt.Sprintf("zdata-%d", i)))
 			}
 		case "goes-quiet":
+		}
+		if (serverKind == "cancels-early" || serverKind == "cancels-late") && ctrlC == 0 {
+			// the remote side gave up: two seconds later its shell prints a prompt, which must not be swallowed
+			verifsim.Sleep(2 * time.Second)
+			down.Write(vGaveUpPrompt)
+			verifsim.Sleep(1500 * time.Millisecond)
+			t, _, _ := term.Snapshot()
+			promptShown = bytes.Contains(t, vGaveUpPrompt)
+			promptChecked = true
 		}
 		lastServerOut = w.Now()
 		serverDone = true
@@ -324,6 +337,17 @@ func vScenarioC19(rc *runCtx) {
 				rc.violate("cancel", "C19:late-helper-not-cancelled", "the server cancelled at %v, the %s helper was started at %v and was neither sent the cancel sequence nor killed (helper %s)", cancelAt, helper.name, helperStartAt, helperKind)
 				return
 			}
+		}
+		// after the remote side has given up and been quiet for two seconds, what it prints is shown (helpers
+		// that honour the cancel sequence or are gone by then; a helper that ignores it is not covered)
+		// (a complaint without cancel bytes only counts as giving up while no helper is running yet)
+		if textOnly && helperStartAt >= 0 && helperStartAt <= cancelAt {
+			promptChecked = false
+		}
+		if promptChecked && !promptShown && (helperKind == "normal" || helperKind == "exit-at-once" || helperKind == "exit-nonzero" || helperKind == "missing") {
+			rc.violate("handback", "C19:output-swallowed-after-giveup", "the remote side gave up (server %s at %v/%v, helper %s) and was quiet for 2 s; the prompt it printed then had not reached the terminal 1.5 s later: terminal tail %s",
+				serverKind, cancelAt, cancelLateAt, helperKind, vQuote(vTail(termAll, vMax0(len(termAll)-80)), 90))
+			return
 		}
 		if helper != nil && helperKind == "silent" && !bytes.Contains(helper.gotIn, vZCancel[:10]) {
 			select {
